@@ -2,6 +2,7 @@
 package wprog
 
 import (
+	"errors"
 	"fmt"
 	"math"
 	"strconv"
@@ -127,6 +128,28 @@ func (it *Interp) call(idx int, c string) (tok string) {
 		}
 		tag, _ := strconv.Atoi(args[0])
 		return it.errTok(idx, writeField(h.msg.Field(uint16(tag)), args[1], args[2]))
+	case "fw":
+		// WriteField with a caller-supplied write function: it appends the bytes and succeeds ("ok")
+		// or fails after appending them ("fail")
+		if !needM() || len(args) != 3 {
+			return "bad-op"
+		}
+		tag, _ := strconv.Atoi(args[0])
+		b, ok := hx.Unhex(args[1])
+		if !ok {
+			return "bad-op"
+		}
+		return it.errTok(idx, spec.WriteField(h.msg.Field(uint16(tag)), b, rawWrite(args[2] == "fail", idx)))
+	case "ew":
+		// ValueListWriter.Add with such a function
+		if !needL() || len(args) != 2 {
+			return "bad-op"
+		}
+		b, ok := hx.Unhex(args[0])
+		if !ok {
+			return "bad-op"
+		}
+		return it.errTok(idx, spec.NewValueListWriter(h.list, rawWrite(args[1] == "fail", idx)).Add(b))
 	case "fany":
 		if !needM() || len(args) != 2 {
 			return "bad-op"
@@ -314,4 +337,18 @@ func scalar(w scalarWriter, kind, arg string) error {
 		return w.String(string(b))
 	}
 	panic("bad kind " + kind)
+}
+
+// rawWrite returns a write function which appends the given bytes and then succeeds or fails (with
+// an error value of its own, so that the error of call idx is told apart from earlier ones).
+func rawWrite(fail bool, idx int) func(b buffer.Buffer, v []byte) (int, error) {
+	errWriteFunc := errors.New("write function failed at call " + strconv.Itoa(idx))
+	return func(b buffer.Buffer, v []byte) (int, error) {
+		p := b.Grow(len(v))
+		copy(p, v)
+		if fail {
+			return 0, errWriteFunc
+		}
+		return len(v), nil
+	}
 }
